@@ -292,7 +292,12 @@ CanCombine(t, group) == CanCombineG(t, <<group>>)
 OpCombine(t, group, qc, sort, bunch) == OpCombineG(t, <<group>>, <<qc>>, DefaultNewAxes(t, <<group>>), sort, bunch)
 
 \* split_legs(axis): inverse of combine (no transpose back)
-CanSplit(t, x) == x \in 1..TRank(t) /\ IsPipe(t.legs[x])
+\* (leg labels must stay unique: splitting "(b.a)" next to legs already called "a" or "b" is an error in tenpy, too)
+CanSplit(t, x) ==
+    /\ x \in 1..TRank(t) /\ IsPipe(t.legs[x])
+    /\ LET sl == SplitLabel(t.labels[x], Len(t.legs[x].pipe)) IN
+       /\ \A i, j \in 1..Len(sl) : (i # j /\ sl[i] # NoneLabel) => sl[i] # sl[j]
+       /\ \A i \in 1..Len(sl), a \in 1..TRank(t) : (a # x /\ sl[i] # NoneLabel) => sl[i] # t.labels[a]
 \* (`psort` records whether the pipe was built with sort=True; it determines the index map)
 OpSplit(t, x) ==
     LET p == t.legs[x]
